@@ -218,7 +218,7 @@ func runAll(c *run.Ctx) {
 			c.Case("typed-empty", idx, func(k *run.K) { checkTree(k, model.Tree{Type: typ, CT: ct}) })
 		}
 	}
-	for i := 0; i < c.N(8000, 200000); i++ {
+	for i := 0; i < c.N(30000, 300000); i++ {
 		c.Case("tree", i, func(k *run.K) {
 			typ := model.Types[k.Rng.Intn(7)]
 			ct := model.CTypes[k.Rng.Intn(4)]
